@@ -21,7 +21,8 @@ EXTENDS Integers, Sequences, FiniteSets, TLC
 
 CONSTANTS
     Orders,         \* order names, e.g. {"o1", "o2"}
-    Names,          \* resource-group names, e.g. {"g1"}
+    Names,          \* resource-group names of requests, e.g. {"g1"}
+    EventNames,     \* group names carried by deployment events and lookups (may include names nobody reserved)
     ReqShapes,      \* set of requests: each a sequence of units [cpu, mem, sto, eps, count]
     InvChoices,     \* set of inventories the cluster may report: each a sequence of [cpu, mem, sto]
     CfgChoices,     \* set of provider configurations [fcpu, fmem, fsto, ports]; factors are <<num, den>>
@@ -325,8 +326,8 @@ Next ==
     /\ \/ \E o \in Orders, n \in Names, req \in ReqShapes : Reserve(o, n, req)
        \/ \E o \in Orders : Unreserve(o)
        \/ Status
-       \/ \E o \in Orders, n \in Names : Lookup(o, n)
-       \/ \E o \in Orders, n \in Names, status \in {"deployed", "pending"} : CD(o, n, status)
+       \/ \E o \in Orders, n \in EventNames : Lookup(o, n)
+       \/ \E o \in Orders, n \in EventNames, status \in {"deployed", "pending"} : CD(o, n, status)
        \/ \E inv \in InvChoices : Refresh(TRUE, inv)
        \/ Refresh(FALSE, <<>>)
        \/ Timer
